@@ -6,7 +6,7 @@ import os
 from concurrent.futures import ProcessPoolExecutor
 
 from harness import core, impl
-from harness.am import AM, ev_coq
+from harness.am import AM, ev_coq, op_coq
 
 HEADER = "From XSM Require Import Model.Cases.\nOpen Scope string_scope.\n"
 
@@ -44,7 +44,7 @@ def run_impl(cases, workers=14):
 def case_coq(i, am: AM, engine, runs, results, probe=False):
     rows = []
     for (cx, events), snaps in zip(runs, results):
-        rows.append("(%s, %s, %s)" % (ctx_coq(cx), core.cl(ev_coq(e) for e in events),
+        rows.append("(%s, %s, %s)" % (ctx_coq(cx), core.cl(op_coq(e) for e in events),
                                       core.cl(impl.toks_coq(s) for s in snaps)))
     return ("Definition m%d : machine := %s.\n"
             "Definition r%d := check_macro %s %s m%d %s.\n" % (i, am.to_coq(), i, "Sync" if engine == "sync" else "Async",
@@ -56,7 +56,19 @@ def check(cases, name, shard=25, par=14, workers=14, max_tokens=30000):
     cases = [c if len(c) == 4 else (c[0], c[1], c[2], None) for c in cases]
     results = run_impl(cases, workers)
     # very long traces (raise storms) cost minutes inside Coq: leave them out, counted
-    keep = [i for i in range(len(cases)) if sum(len(s) for run in results[i] for s in run) <= max_tokens]
+    # a run on which the implementation hit the watchdog is inconclusive for the correspondence (wall-clock
+    # dependent); it is dropped here and counted - termination is property C13's business
+    impl_timeouts = 0
+    timed_out_runs = []
+    for i in range(len(cases)):
+        am_, eng_, runs_, opts_ = cases[i]
+        ok = [j for j in range(len(runs_)) if not any(len(s) == 1 and s[0][1] == "TIMEOUT" for s in results[i][j])]
+        impl_timeouts += len(runs_) - len(ok)
+        timed_out_runs += [(am_, eng_, runs_[j][0], runs_[j][1], opts_, results[i][j]) for j in range(len(runs_)) if j not in ok]
+        if len(ok) != len(runs_):
+            cases[i] = (am_, eng_, [runs_[j] for j in ok], opts_)
+            results[i] = [results[i][j] for j in ok]
+    keep = [i for i in range(len(cases)) if cases[i][2] and sum(len(s) for run in results[i] for s in run) <= max_tokens]
     skipped_large = len(cases) - len(keep)
     cases = [cases[i] for i in keep]
     results = [results[i] for i in keep]
@@ -69,6 +81,7 @@ def check(cases, name, shard=25, par=14, workers=14, max_tokens=30000):
     outs = core.coq_eval_many(jobs, par=par)
     disagreements = []
     runs_total = 0
+    model_timeouts = 0
     import re
     for (jname, _), j in zip(jobs, range(0, len(cases), shard)):
         rc, out, _dt = outs[jname]
@@ -76,13 +89,14 @@ def check(cases, name, shard=25, par=14, workers=14, max_tokens=30000):
             disagreements.append(dict(component="K-macro", case=None, model="coqc failed: " + out[-800:], impl=None, file=jname))
             continue
         body = re.sub(r"\s+", "", out[out.find("="):])
-        found = re.findall(r"\((\d+),\[([0-9;]*)\]\)", body)
+        found = re.findall(r"\((\d+),\(\[([0-9;]*)\],\[([0-9;]*)\]\)\)", body)
         if len(found) != min(shard, len(cases) - j):
             disagreements.append(dict(component="K-macro", case=None, impl=None, file=jname,
                                       model="could not parse coqc output: " + out[-400:]))
-        for m in re.finditer(r"\((\d+),\[([0-9;]*)\]\)", body):
-            i = int(m.group(1))
-            bad = [int(x) for x in re.findall(r"\d+", m.group(2))]
+        for si, sbad, stmo in found:
+            i = int(si)
+            bad = [int(x) for x in re.findall(r"\d+", sbad)]
+            model_timeouts += len(re.findall(r"\d+", stmo))
             runs_total += len(cases[i][2])
             for b in bad:
                 am, engine, runs, opts = cases[i]
@@ -91,12 +105,12 @@ def check(cases, name, shard=25, par=14, workers=14, max_tokens=30000):
                                           am_b64=__import__('base64').b64encode(__import__('pickle').dumps(am)).decode()),
                                           impl=results[i][b], model="differs (rerun with --replay for the model's trace)",
                                           am=am))
-    return disagreements, dict(machines=len(cases), runs=runs_total, skipped_large=skipped_large), results, cases
+    return disagreements, dict(machines=len(cases), runs=runs_total, skipped_large=skipped_large, impl_timeouts=impl_timeouts, model_out_of_fuel=model_timeouts, timed_out_runs=timed_out_runs), results, cases
 
 
 def model_trace(am: AM, engine, cx, events, name="replay", probe=False):
     """Ask Coq for the model's snapshots of one run (for replay / diagnosis)."""
     text = HEADER + "Definition m0 : machine := %s.\nEval vm_compute in (%s m0 %s %s).\n" % (
-        am.to_coq(), ("sync_case " if engine == "sync" else "async_case ") + ("true" if probe else "false"), ctx_coq(cx), core.cl(ev_coq(e) for e in events))
+        am.to_coq(), ("sync_case " if engine == "sync" else "async_case ") + ("true" if probe else "false"), ctx_coq(cx), core.cl(op_coq(e) for e in events))
     rc, out, _ = core.coq_eval(name, text)
     return out
